@@ -62,6 +62,8 @@ fn main() {
     std::env::set_var("SSL_CERT_DIR", "/nonexistent");
     match args[1].as_str() {
         "sched-worker" => subjects::worker_main(&args[2..]),
+        // vh lib-compress-seq <json list of specs>: write the archives one after the other in THIS process, print their fingerprints
+        "lib-compress-seq" => c01::compress_seq_main(&args[2]),
         "iso-job" => {
             // vh iso-job <kind> <tier> <job>: run one isolated job in this process (debug / replay)
             let thorough = args[3] == "thorough";
